@@ -32,6 +32,7 @@ def _init(modname, width, query_timeout_ms):
         rt.set_width(width)
     rt.install()
     rt.ENGINE.timeout_ms = query_timeout_ms
+    core.SECOND["every"] = int(os.environ.get("VERIF_SECOND_EVERY", "0"))
     _W["width"] = width or 256
     _W["mod"] = importlib.import_module("vf.harness." + modname)
     _W["kf"] = core.KnownFindings(os.path.join(ROOT, "known_findings.json"))
@@ -71,6 +72,8 @@ def case_key(case):
 
 def run_property(prop, tier, seed, args):
     t0 = time.time()
+    if "VERIF_SECOND_EVERY" not in os.environ:
+        os.environ["VERIF_SECOND_EVERY"] = "0" if tier == "quick" else "500"
     modname = HARNESS[prop]
     mod = importlib.import_module("vf.harness." + modname)
     settings = dict(getattr(mod, "SETTINGS", {}))
@@ -119,6 +122,7 @@ def finish(prop, modname, mod, tier, seed, cases, results, not_run, t0, args, se
                witness_ok=0, reached=0)
     inconclusive, errors, witness_bad, candidates, known, harness_errors = [], [], [], [], [], []
     oob, funcs, models, assume, outcomes = {}, set(), set(), set(), {}
+    second = {"checked": 0, "agree": 0, "disagree": [], "inconclusive": 0}
     samples = []
     decided_cases = 0
     skipped = 0
@@ -136,6 +140,10 @@ def finish(prop, modname, mod, tier, seed, cases, results, not_run, t0, args, se
             oob[k] = oob.get(k, 0) + v
         for k, v in r["outcomes"].items():
             outcomes[k] = outcomes.get(k, 0) + v
+        if "second" in r:
+            for k in ("checked", "agree", "inconclusive"):
+                second[k] += r["second"][k]
+            second["disagree"] += r["second"]["disagree"]
         lab = r["case"].get("label")
         cfg = r["case"].get("cfg")
         if r["inconclusive"]:
@@ -190,6 +198,9 @@ def finish(prop, modname, mod, tier, seed, cases, results, not_run, t0, args, se
             "inconclusive": inconclusive[:40], "inconclusive_cases": len(inconclusive),
             "out_of_bound_paths": oob, "outcome_classes": outcomes,
             "functions_encoded": sorted(funcs), "models_used": sorted(models),
+            "second_solver": {"binaries": "/usr/bin/z3 4.8.12, cvc5 1.0.3 (first that answers)", "sample_every": int(os.environ.get("VERIF_SECOND_EVERY", "0")),
+                              "unsat_obligations_rechecked": second["checked"], "agreed": second["agree"], "inconclusive": second["inconclusive"],
+                              "disagreements": second["disagree"][:10]},
             "solver": {"engine": "z3 " + _z3v(), "queries": agg["queries"], "solver_s": round(agg["solver_s"], 2)},
             "heaviest_cases": [{"wall_s": h[0], "paths": h[1], "case": h[2], "cfg": h[3]} for h in heavy],
             "bounds": getattr(mod, "BOUNDS", {}).get(tier, getattr(mod, "BOUNDS", {}).get("all", "")),
@@ -223,7 +234,9 @@ def finish(prop, modname, mod, tier, seed, cases, results, not_run, t0, args, se
     if len(viol_lines) > 25:
         print(f"  ... and {len(viol_lines) - 25} more violations")
     status = EXIT_OK
-    if harness_errors or errors or witness_bad or unreproduced or known_unrep or vacuous:
+    if second["disagree"]:
+        print(f"  HARNESS-ERROR second solver disagrees on {len(second['disagree'])} obligation(s): {second['disagree'][:3]}")
+    if harness_errors or errors or witness_bad or unreproduced or known_unrep or vacuous or second["disagree"]:
         status = EXIT_HARNESS
         for e in errors[:10]:
             print(f"  HARNESS-ERROR uncaught exception: {e}")
